@@ -391,8 +391,6 @@ impl SubscriptionActor {
         }
 
         self.deleted = true;
-        self.observer.mark_deleting();
-        let mut also_deleting = Vec::new();
         #[cfg(deltio_verif)]
         crate::verif::emit("s.del0", |_| {
             serde_json::json!({
@@ -400,6 +398,8 @@ impl SubscriptionActor {
                 "topic": self.topic.upgrade().map(|t| t.internal_id),
             })
         });
+        self.observer.mark_deleting();
+        let mut also_deleting = Vec::new();
         #[cfg(deltio_verif)]
         crate::verif::point("s.del.remove", self.internal_id as u64).await;
 
